@@ -236,10 +236,16 @@ def r5_anchors(ctx, res):
     expect(res, 'anchor:common_hypernyms', vch, [('return', ch_text)],
            'common hypernyms are the intersection of the two ancestor sets (each including the synset itself), sorted')
     pivot = f'min({_SHP}, key=lambda _1: len({_SHP}[_1]), default=None)'
-    expect(res, 'anchor:shortest_path', T('shortest_path'), [
-        ('raise', "wn.Error(f'no path between {synset!r} and {other!r}')", (f'{pivot} is None',)),
-        ('return', f'{_SHP}[{pivot}][1:]', (f'{pivot} is not None',)),
-    ], 'shortest_path is the minimal combined path through a common hypernym without the start synset, wn.Error when nothing is shared')
+    vsp = T('shortest_path')
+    if any(r[0] == 'raise' and set(r[2]) == {f'not {_SHP}'} for r in vsp.rows):
+        # the emptiness of the path map tested directly (the keys are tuples: min(..., default=None) is None exactly then)
+        pivot2 = f'min({_SHP}, key=lambda _1: len({_SHP}[_1]))'
+        sp_spec = [('raise', "wn.Error(f'no path between {synset!r} and {other!r}')", (f'not {_SHP}',)),
+                   ('return', f'{_SHP}[{pivot2}][1:]', (_SHP,))]
+    else:
+        sp_spec = [('raise', "wn.Error(f'no path between {synset!r} and {other!r}')", (f'{pivot} is None',)),
+                   ('return', f'{_SHP}[{pivot}][1:]', (f'{pivot} is not None',))]
+    expect(res, 'anchor:shortest_path', vsp, sp_spec, 'shortest_path is the minimal combined path through a common hypernym without the start synset, wn.Error when nothing is shared')
     v = T('_shortest_hyp_paths')
     both = '((0, _hypernym_paths(synset, simulate_root, True)), (1, _hypernym_paths(other, simulate_root, True)))'
     loops = [r[3][0][4:] for r in v.rows if r[0] == 'store' and r[1].startswith('#3[') and len(r[3]) == 1 and r[3][0].startswith('for ')]
